@@ -237,7 +237,23 @@ class Doc:
         found = [c for c, ref, ch in self.positions if ch is nc.node and c is not nc.parent and _same_ref(ref, nc.parentref)]
         # scalars are shared objects: prefer a container that hangs directly under the claimed parent
         under = [c for c in found if any(pc is nc.parent and pch is c for pc, _, pch in self.positions)]
+        under.sort(key=lambda c: kind(c) != "set")      # a map/list handler would have handed out that very map/list
         return under + [c for c in found if not any(c is u for u in under)]
+
+    def home_by_ancestry(self, nc):
+        """parent[parentref] is the node only because an equal scalar is one shared object: the ancestry
+        ends at another container that holds this object under this reference."""
+        anc = nc.ancestry
+        if not anc:
+            return None
+        try:
+            tip = anc[-1][0][anc[-1][1]]
+        except (KeyError, IndexError, TypeError):
+            return None
+        for cand in self.homes(nc):
+            if cand is tip:
+                return cand
+        return None
 
     def is_merge_source(self, nc):
         m = getattr(nc.parent, "merge", None)
@@ -336,7 +352,8 @@ def check_ancestry(nc, doc, home=None):
         tparent = home                    # the walk has to end at the container the node really lives in
         for cand in [home] + [h for h in doc.homes(nc) if h is not home]:   # equal scalars are shared objects
             try:
-                if (not anc and cand is root) or (anc and anc[0][0] is root and anc[-1][0][anc[-1][1]] is cand):
+                if (not anc and cand is root and nc.parent is None) or \
+                        (anc and anc[0][0] is root and anc[-1][0][anc[-1][1]] is cand):
                     return "stops-above-the-container", "%s, node lives in %s" % (_anc_repr(anc), _short(cand)), kind(cand)
             except (KeyError, IndexError, TypeError):
                 pass
@@ -439,7 +456,8 @@ def first_key_begins_with_slash(nc, doc):
 
 
 def parses_back(nc):
-    """Do the segments of the reported path, parsed again, name the references of the ancestry?  (True when not comparable)"""
+    """Do the key/index segments of the reported path, parsed again, spell the references of the ancestry?
+    (True when not comparable: other segment kinds, or a different number of segments)"""
     from yamlpath import YAMLPath
     from yamlpath.enums import PathSegmentTypes
     try:
@@ -450,7 +468,7 @@ def parses_back(nc):
         return True
     refs = [r for _, r in nc.ancestry]
     if len(segs) != len(refs):
-        return False
+        return True          # a structural disagreement, not a rendering one: keyed by segment kind
     return all(str(a) == str(r) for (_, a), r in zip(segs, refs))
 
 
@@ -562,9 +580,15 @@ def check_case(doc, path_text, log=None, requery=None):
         info["kinds"].append(seg_kind(nc) + ">" + kind(nc.parent))
         handed_out.append((nc, snapshot_coords(nc)))
         pr = check_parent_ref(nc, doc)
+        home = doc.homes(nc)[0] if pr and pr[0] == "parent-is-not-the-container" else None
+        if pr is None and kind(nc.node) in ("scalar", "none") and nc.parent is not None:
+            home = doc.home_by_ancestry(nc)
+            if home is not None:
+                pr = ("parent-is-not-the-container",
+                      "parent=%s parentref=%r holds an equal (shared) scalar; the ancestry leads to %s" % (
+                          _short(nc.parent), nc.parentref, _short(home)), kind(home))
         if pr:
             fail(nc, "parent-ref", pr[0], pr[1], "parent[parentref] is node (set: node in parent); root: parent None", pr[2])
-        home = doc.homes(nc)[0] if pr and pr[0] == "parent-is-not-the-container" else None
         an = check_ancestry(nc, doc, home)
         if an:
             fail(nc, "ancestry", an[0], an[1],
